@@ -212,8 +212,11 @@ def h_occupied(cx, kind, via_network):
     params = _params(cx, kind, 2)
     evse = _make(kind, params)
     cap = cx.real("cap", lo=0, lo_open=True, hi=100)
-    ev1 = A.EV(0, 10, cx.real("req1", lo=0, hi=100), "S", "one", A.Battery(cap, 0, 7))
-    ev2 = A.EV(1, 9, cx.real("req2", lo=0, hi=100), "S", "two", A.Battery(cap, 0, 7))
+    # session times are arbitrary: the newcomer may arrive before, at or after the occupant's (already passed) departure
+    a1, d1, a2, d2 = cx.int("a1", 0, 6), cx.int("d1", 1, 7), cx.int("a2", 0, 6), cx.int("d2", 1, 7)
+    cx.assume(and_(lt(a1, d1), lt(a2, d2)))
+    ev1 = A.EV(a1, d1, cx.real("req1", lo=0, hi=100), "S", "one", A.Battery(cap, 0, 7))
+    ev2 = A.EV(a2, d2, cx.real("req2", lo=0, hi=100), "S", "two", A.Battery(cap, 0, 7))
     net = A.ChargingNetwork()
     net.register_evse(evse, 208, 0)
     if via_network:
